@@ -56,6 +56,51 @@ claim("C14", "other",
       "Trusted: CPython ast; statement-tree dominance (no goto-like constructs in find_all).",
       "DESIGN.md 4/C14")
 
+claim("C06", "other",
+      "effect analysis over the CHA call graph: set-iteration classification, predicate-receiver provenance, global-state write inventory, nondeterministic-source reachability (AST)",
+      "Effect property decided structurally on every function reachable from scan_file / scan_path / check_command: every "
+      "iteration over a set is order-insensitive (one admitted site, conditional on consume examining all transitions), "
+      "stateful predicates are only used through per-attempt deep copies, nothing writes module/class level state except the "
+      "State id counter, nondeterministic sources reach only uuid/timestamp, no expression has two equal stateful atoms.",
+      "Trusted: pygments determinism; CHA over-approximates dynamic dispatch by method name. File listing order of os.walk is outside the property.",
+      "DESIGN.md 4/C06")
+
+claim("C08", "other",
+      "f-string placeholder classification by quote parity + escaping-wrapper recognition + declared field types; writer/reader key-tree extraction and comparison (AST)",
+      "Structure of the hand-written serializer and the reader: every emitted value is json.dumps-escaped or declared int/list[int]; "
+      "the reader's key paths exist in the writer's reconstructed key tree; version/uuid/root/repository are restored unmodified; "
+      "pretty and compact branches are equal up to whitespace; the parsed document is not shared and mutated. Values whose run-time "
+      "type differs from the declaration are not covered.",
+      "Trusted: json.dumps/json.loads; dataclass / __init__ annotations tell the truth about field types.",
+      "DESIGN.md 4/C08")
+
+claim("C09", "other",
+      "guard dominance + def-use provenance of the cached entry, version-guard effectiveness, who-may-call table (AST)",
+      "Partial: the reuse discipline the equality rests on - cached entry looked up by the file's own root-relative key only, reuse "
+      "dominated by the checksum comparison with the scanned file's bytes, effective version guard (the compared field is restored by "
+      "the reader or read from the document), version refusal in report/findings, result rebuilt from the walk. Equality of cached and "
+      "fresh reports over edit histories is NOT decided.",
+      "Trusted: md5 of file bytes identifies content; CPython ast.",
+      "DESIGN.md 4/C09")
+
+claim("C10", "other",
+      "must-handle rule with an exception catalogue computed from the reader's constructs, resolved through callers; all-or-nothing reader; write-idempotence rules (AST)",
+      "Mechanism: every cache read/parse on the scan path is enclosed by a handler covering the catalogue of exceptions those operations "
+      "raise on arbitrary bytes and continues as 'no cache'; the reader has no swallowing handler (a rejected cache cannot taint); the "
+      "cache write is unconditional, whole-document, truncating (no 'x'/'a'), directory creation idempotent. Byte equality with the fresh "
+      "report is not decided.",
+      "Trusted: exception behaviour of json.loads / subscripting / text-mode reads; write_text truncates.",
+      "DESIGN.md 4/C10")
+
+claim("C11", "other",
+      "walker analysis: in-place pruning, dot-predicate folding on name classes, complete guard set between loop head and analysing call, provenance, who-may-call (AST)",
+      "Selection logic decided structurally: directories pruned in place and files filtered by exactly 'starts with a dot'; the only "
+      "reasons a file is skipped are is_excluded(root-relative path, generate_exclude_spec(root)), ClassNotFound, unsupported language; "
+      "the spec has all three sources, accumulated not rebound; entries keyed by relpath with checksum of bytes; analysing functions "
+      "called only from guarded sites. gitignore semantics and the name->lexer map are trusted.",
+      "Trusted: os.walk honours in-place edits only; pathspec; pygments lexer lookup.",
+      "DESIGN.md 4/C11")
+
 NOT_IMPLEMENTED_YET = "check under construction in this session (see DESIGN.md section 4 for the planned rules)"
 
 
